@@ -223,6 +223,11 @@ Conforms(R, A) ==
           SubBag(SelectSeq([i \in DOMAIN R |-> <<A.win[i], R[i]>>], LAMBDA p : p[1] = cl),
                  SelectSeq([i \in DOMAIN A.pool |-> <<A.cls[i], A.pool[i]>>], LAMBDA p : p[1] = cl))
 
+\* Property C02, for the outcome of the sharded execution of q (Rejected, or the row sequence R it returned):
+\*     Rejected  \/  Conforms(R, Answer(q, AllRows))
+\* Without LIMIT, Conforms is  SameBag(R, pool)  /\  "R is ordered wherever ORDER BY determines the order".
+C02Holds(q, rows, rejected, R) == rejected \/ Conforms(R, Answer(q, rows))
+
 (***************************************************************************************)
 (* The decomposition the proxy relies on, as a design-level statement that TLC checks:    *)
 (* a query can be answered table by table and merged.                                      *)
@@ -304,6 +309,15 @@ Affected(q, rows) ==
 
 TableRows(cfg, rows, t) == SelectSeq(rows, LAMBDA r : Place(cfg, r[1]) = t)
 Sharded(cfg, rows) == [t \in 1..cfg.nt |-> TableRows(cfg, rows, t - 1)]
+
+\* Property C05, for the outcome of the sharded execution of a DML statement q: it was refused at planning time
+\* (accepted = FALSE), or the physical tables hold `tables` afterwards and `n` affected rows were reported.
+\* A statement assigning the sharding column must be refused; any other must leave on every table exactly the
+\* rows a single database would leave, placed by the rule (so no row has moved), and report the number changed.
+C05Holds(q, cfg, rows, accepted, tables, n) ==
+    IF Rejected(q) THEN ~accepted
+    ELSE accepted => /\ \A t \in 1..cfg.nt : SameBag(tables[t], TableRows(cfg, Effect(q, rows), t - 1))
+                     /\ n = Affected(q, rows)
 
 (***************************************************************************************)
 (* Query grammar: finite catalogues indexed by small integers                          *)
@@ -527,7 +541,7 @@ SelectProps(cs, A) ==
         rows == cs.rows
         per == Sharded(cs.cfg, rows)
     IN /\ SameBag(Flatten(per), rows)                                  \* PlacementPartitions
-       /\ Conforms(CanonicalResult(q, A), A)                           \* AnswerSelfConforms
+       /\ Conforms(CanonicalResult(q, A), A)                           \* AnswerSelfConforms (C02Holds of the canonical result)
        /\ (q.cnt >= 0 => Len(A.win) <= q.cnt)                          \* LimitBound
        /\ Len(A.win) <= Len(A.pool)
        /\ (q.cnt < 0 /\ q.off = 0 => Len(A.win) = Len(A.pool))
@@ -551,6 +565,8 @@ DmlProps(cs) ==
         per == Sharded(cfg, rows)
         after == Effect(q, rows)
     IN /\ SameBag(Flatten(per), rows)
+       \* the single-database outcome, placed by the rule, satisfies C05 (and a refusal satisfies it when required)
+       /\ C05Holds(q, cfg, rows, ~Rejected(q), Sharded(cfg, after), Affected(q, rows))
        /\ (~Rejected(q) /\ cs.fam # "insdup" =>
              \* DmlDecomposes: the statement applied table by table gives the placement of the global effect
              /\ \A t \in DOMAIN per : SameBag(Effect(q, per[t]), TableRows(cfg, after, t - 1))
